@@ -297,10 +297,11 @@ func (c *Ctx) c08MapSwapUnderWalk() {
 			bucket = "hashedBucketOf"
 		}
 		bad := false
+		construction := c.onlyCalledFrom(func(name string) bool { return constructors[name] || strings.HasPrefix(name, "New") })
 		c.eachFuncDecl(func(fd *ast.FuncDecl, fn *types.Func) {
 			name := strings.TrimPrefix(pw.FuncName(fn), "cache.")
-			if constructors[name] || strings.HasPrefix(name, "New") {
-				return
+			if construction(fn) {
+				return // the instance is not shared yet
 			}
 			ast.Inspect(fd.Body, func(x ast.Node) bool {
 				as, ok := x.(*ast.AssignStmt)
